@@ -572,3 +572,6 @@ def all_cases(rng, tier):
                         if f is fmt_850 and near_window_edge(mo, d):
                             continue
                         yield "p " + hx(f(y, mo, d, 23, 59, 59, wd=WD[0] if f is not fmt_850 else WDL[0]))
+
+
+KNOWN_MUST_MATCH_MODEL = True   # inside a known finding's region the observation must still equal the model's (which reproduces the listed defect); see lib/vf/run.py
